@@ -270,7 +270,8 @@ class SimProcess:
         ent.proc = self
         ent.flavour = flavour
         ent.fork_memory = fmem
-        ent.sigint = 'default'
+        # a child inherits an ignored SIGINT (fork: the whole disposition table; spawn: SIG_IGN survives exec)
+        ent.sigint = 'ignore' if simos.main_sigint == 'ignore' else 'default'
         if flavour == 'fork':
             ent.log_handlers = list(simos.main_handlers())
             ent.stdout = None
@@ -485,13 +486,30 @@ class SignalShim:
         self._simos = simos
 
     def signal(self, signum, handler):
-        sim = self._simos.sim
+        so = self._simos
+        sim = so.sim
         sim.yp('signal')
         e = sim.me()
-        if e is not None and e.kind == 'worker' and signum == _real_signal.SIGINT:
-            e.sigint = 'ignore' if handler is _real_signal.SIG_IGN else 'handler'
+        if signum != _real_signal.SIGINT:
+            return _real_signal.SIG_DFL
+        if handler is _real_signal.SIG_IGN:
+            disp = 'ignore'
+        elif handler is _real_signal.SIG_DFL or handler is _real_signal.default_int_handler:
+            disp = 'default'
+        else:
+            disp = 'handler'
+        if e is not None and e.kind == 'worker':
+            previous = e.tags.get('sigint_handler', _real_signal.default_int_handler if e.sigint == 'default' else _real_signal.SIG_IGN)
+            e.sigint = disp
+            e.tags['sigint_handler'] = handler
             sim.ev('sigdisp', e.name, e.sigint)
-        return _real_signal.SIG_DFL
+            return previous
+        # the calling process itself changes its SIGINT disposition
+        previous = so.main_sigint_handler
+        so.main_sigint = disp
+        so.main_sigint_handler = handler
+        sim.ev('sigdisp', 'main', disp)
+        return previous
 
     def __getattr__(self, name):
         return getattr(_real_signal, name)
@@ -647,6 +665,8 @@ class SimOS:
         self.proc_count = 0
         self.ticks = 0
         self.main_proc = MainProc()
+        self.main_sigint = 'default'          # SIGINT disposition of the calling process
+        self.main_sigint_handler = _real_signal.default_int_handler
         self.fork_memory: Optional[ForkMemoryDict] = None
         self.sink_out = Sink()
         self.sink_err = Sink()
